@@ -102,8 +102,12 @@ def enabled(m, cfg, out):
                     warnings.simplefilter("ignore")
                     v.shape = shape
             except (AttributeError, ValueError):
+                if cfg.get("badshape"):
+                    sts.append(("badshape", tgt, shape))
                 continue
             sts.append(("setshape", tgt, shape))
+        if cfg.get("badshape") and cfg.get("setshape") and len(shp) and int(np.prod(shp)) > 0:
+            sts.append(("badshape", tgt, (int(np.prod(shp)) + 1,)))  # wrong size
     for extra in cfg.get("extra", ()):
         sts.extend(extra(m, cfg, out))
     return sts
